@@ -27,6 +27,11 @@ package main
 //                                stands INSIDE the body of `for range tk.C { … }` (it is reached only after a
 //                                receive from the ticker: a connection is closed one tick after its receive loop
 //                                returned at the earliest), 0 otherwise (e.g. `for numInvoke > 0 { <-tk.C }`)
+//   srvRecvDrainUnbounded        1 when the drain loop of a connection's deferred close (the `for range <ticker>.C`
+//                                loop, anywhere in package transport, whose body tests
+//                                `atomic.LoadInt32(&connSt.numInvoke) == 0`) can be left ONLY through that test:
+//                                every break / return / goto in its body stands in the `if` of that comparison;
+//                                0 when there is another exit (e.g. a bound on the number of ticks) or no such loop
 //   srvRecvDrainChecks           comparisons `atomic.LoadInt32(&connSt.numInvoke) == 0` in recv (the
 //                                deferred drain-then-close)
 
@@ -200,6 +205,85 @@ func (f *file) shutdownCaptures(fnName string) (passed, captured int64, ok bool)
 	return passed, captured, true
 }
 
+// drainUnbounded looks, in every non-test file of package transport, for the connection drain loop
+// and reports whether the numInvoke test is its only exit.
+func drainUnbounded() (val int64, found bool) {
+	const dir = "tars/transport"
+	ents, err := os.ReadDir(filepath.Join(*repo, dir))
+	if err != nil {
+		return 0, false
+	}
+	isTest := func(e ast.Expr, f *file) bool {
+		be, ok := e.(*ast.BinaryExpr)
+		if !ok || be.Op != token.EQL || exprStr(f.fset, be.X) != "atomic.LoadInt32(&connSt.numInvoke)" {
+			return false
+		}
+		z, ok := intLit(be.Y)
+		return ok && z == 0
+	}
+	val = 1
+	for _, e := range ents {
+		if e.IsDir() || !strings.HasSuffix(e.Name(), ".go") || strings.HasSuffix(e.Name(), "_test.go") {
+			continue
+		}
+		f := parse(dir + "/" + e.Name())
+		if f == nil {
+			continue
+		}
+		ast.Inspect(f.f, func(n ast.Node) bool {
+			rs, ok := n.(*ast.RangeStmt)
+			if !ok || !strings.HasSuffix(exprStr(f.fset, rs.X), ".C") {
+				return true
+			}
+			hasTest := false
+			ast.Inspect(rs.Body, func(m ast.Node) bool {
+				if ex, ok := m.(ast.Expr); ok && isTest(ex, f) {
+					hasTest = true
+				}
+				return true
+			})
+			if !hasTest {
+				return true
+			}
+			found = true
+			// exits of the loop body: guarded = inside an if whose condition is the test itself
+			var walk func(n ast.Node, guarded bool)
+			walk = func(n ast.Node, guarded bool) {
+				ast.Inspect(n, func(m ast.Node) bool {
+					switch x := m.(type) {
+					case *ast.IfStmt:
+						if x.Init != nil {
+							walk(x.Init, guarded)
+						}
+						walk(x.Body, guarded || isTest(x.Cond, f))
+						if x.Else != nil {
+							walk(x.Else, guarded)
+						}
+						return false
+					case *ast.FuncLit:
+						return false
+					case *ast.BranchStmt:
+						if (x.Tok == token.BREAK || x.Tok == token.GOTO) && !guarded {
+							val = 0
+						}
+					case *ast.ReturnStmt:
+						if !guarded {
+							val = 0
+						}
+					}
+					return true
+				})
+			}
+			walk(rs.Body, false)
+			return true
+		})
+	}
+	if !found {
+		val = 0
+	}
+	return val, true
+}
+
 func init() {
 	const th = "tars/transport/tcphandler.go"
 	const ts = "tars/transport/tarsserver.go"
@@ -316,6 +400,10 @@ func init() {
 				return true
 			})
 			add("srvRecvDrainTickFirst", tickFirst, true)
+		}
+		{
+			v, ok := drainUnbounded()
+			add("srvRecvDrainUnbounded", v, ok)
 		}
 		v, ok = h.durMillis("tcpHandler.recv", "time.NewTicker", 0) // watchInterval of the deferred drain
 		add("srvDrainPollMs", v, ok)
